@@ -257,9 +257,48 @@ fn policies_run(r: &mut Report, d: &mut Driver, rng: &mut Rng, n: u64) {
     *crate::network::VERIF_MOCK_NETWORK.lock().unwrap() = None;
 }
 
+/// Tie of `considerSame` (Vet/Model/Registry.lean): the real `consider_as_same` on every
+/// combination of absent / one / another description and repository on either side.
+fn same_metadata_run(r: &mut Report, d: &mut Driver) {
+    let strs = [None, Some("one"), Some("another")];
+    let pkg = |desc: Option<&str>, repo: Option<&str>| -> cargo_metadata::Package {
+        serde_json::from_value(serde_json::json!({
+            "name": "copy", "version": "1.0.0", "id": "copy 1.0.0 (path+file:///FAKE)",
+            "license": "MIT", "license_file": null, "description": desc, "source": null,
+            "dependencies": [], "targets": [], "features": {}, "manifest_path": "/FAKE/Cargo.toml",
+            "metadata": null, "publish": null, "authors": [], "categories": [], "keywords": [],
+            "readme": null, "repository": repo, "homepage": null, "documentation": null,
+            "edition": "2015", "links": null, "default_run": null, "rust_version": null
+        })).unwrap()
+    };
+    let opt = |i: usize| match i { 0 => "0".to_owned(), k => format!("{}", k + 1) };
+    for a in 0..3 {
+        for b in 0..3 {
+            for c in 0..3 {
+                for e in 0..3 {
+                    let reg = CratesAPICrateMetadata { description: strs[a].map(|s| s.to_owned()), repository: strs[b].map(|s| s.to_owned()) };
+                    let real = reg.consider_as_same(&pkg(strs[c], strs[e]));
+                    let ans = d.ask(&format!("samemeta {} {} {} {}", opt(a), opt(b), opt(c), opt(e)));
+                    r.evaluations += 1;
+                    r.corr("corr.same-metadata", &format!("ok {}", real as u8), &ans, &format!("crates.io: description {:?} repository {:?}; local package: description {:?} repository {:?}", strs[a], strs[b], strs[c], strs[e]));
+                    // the property's own words: a matching description or repository
+                    let want = (a != 0 && a == c) || (b != 0 && b == e);
+                    r.oracle_checked += 1;
+                    if real != want {
+                        r.fail("oracle", "C08/metadata-match", format!("consider_as_same = {real}, but the description {} and the repository {}", if a != 0 && a == c { "matches" } else { "does not match" }, if b != 0 && b == e { "matches" } else { "does not match" }), &format!("crates.io: description {:?} repository {:?}; local package: description {:?} repository {:?}", strs[a], strs[b], strs[c], strs[e]));
+                    }
+                }
+            }
+        }
+    }
+}
+
 pub fn run(r: &mut Report) {
     let mut d = Driver::spawn();
     let (shard, nshards) = shard();
+    if r.prop == "C08" && shard == 0 {
+        same_metadata_run(r, &mut d);
+    }
     let rule08 = "cases = a first-party (path or git) package named like a crates.io crate, with policy audit-as-crates-io = none/true/false, registry state (crate absent, present with matching / non-matching metadata, published versions a random subset of 1..6), local full audits for a random subset of versions; then the real unlocked check, publication of the local version, and the real --locked check; non-trivial = the crate is forced to audit-as-crates-io and known to the registry; distinct by case parameters";
     if r.prop == "C08" {
         r.rule = rule08.into();
